@@ -77,7 +77,7 @@ func (cs *Case) progClass() string {
 }
 
 // noModel: raw AWK programs are outside the rule language of the Lean machine
-func (cs *Case) noModel() bool { return cs.Class == "raw" || cs.Class == "special" }
+func (cs *Case) noModel() bool { return cs.Class == "raw" || cs.Sp != nil }
 
 var varNames = []string{"v0", "v1", "v2"}
 
